@@ -1,6 +1,54 @@
 package checks
 
-import "verif/internal/core"
+import (
+	"fmt"
 
-// c13Served runs the served half of C13 (filled in by the pipeline driver).
-func c13Served(c *core.Check, events *[][]byte, caseInfo map[string]any) int { return 0 }
+	"verif/driver"
+	"verif/internal/aspec"
+	"verif/internal/core"
+)
+
+// c13Served runs the served half of C13: GET <base>/<spec name> through compiled generated
+// packages under 0..3 middlewares, with and without SpecFileHandler; judged by Trace_Pipeline
+// (Spec event iff installed and the path is <BaseNF>/<spec name>, outside every middleware,
+// body byte-equal to the input file).
+func c13Served(c *core.Check, events *[][]byte, caseInfo map[string]any) int {
+	specs := map[string]*aspec.ASpec{}
+	var groups []pGroup
+	caseN := 0
+	newCase := func() string { caseN++; return fmt.Sprintf("s%d", caseN) }
+	names := []string{"openapi.yaml", "spec.json", "api.v1.yml"}
+	descs := []string{"", "one \\ back\\slash \"q\" `tick`", "multi\nline\r\nwith\ttab and unicode é ☃"}
+	bases := baseForms()
+	for bi, b := range bases {
+		if c.Tier != "thorough" && bi%2 == 1 && bi != 3 {
+			continue
+		}
+		id := fmt.Sprintf("sv%d", bi)
+		a := &aspec.ASpec{Base: b, SpecName: names[bi%len(names)], InfoDesc: descs[bi%len(descs)],
+			Flags: aspec.Flags{APIHandler: true, DoNotEdit: bi%2 == 0}, Security: aspec.Sec{K: "none"}}
+		t := []aspec.Seg{{K: "lit", S: "a"}}
+		tv := []aspec.Seg{{K: "var", S: "x"}}
+		a.Paths = []aspec.PathItem{{Template: t, Ops: []aspec.Op{simpleOp("GET", t)}}, {Template: tv, Ops: []aspec.Op{simpleOp("GET", tv)}}}
+		specs[id] = a
+		nf := b.NF()
+		for mw := 0; mw <= 3; mw++ {
+			for _, installed := range []bool{true, false} {
+				g := pGroup{Pkg: id, ASpec: a, API: driver.APIConfig{Mw: mw, NotFound: mw%2 == 0, Spec: installed}}
+				for _, p := range []string{nf + "/" + a.SpecName, nf + "/" + a.SpecName + "/", nf + "//" + a.SpecName, "/" + a.SpecName, nf + "/x/" + a.SpecName, nf + "/a", nf + "/" + a.SpecName + "x", "/other/" + a.SpecName} {
+					for _, m := range []string{"GET", "POST", "HEAD"} {
+						g.Cases = append(g.Cases, mkReq(newCase(), m, p, nil, a))
+					}
+				}
+				groups = append(groups, g)
+			}
+		}
+	}
+	run, ok := runPipeline(c, specs, groups)
+	if !ok {
+		return 0
+	}
+	judgePipeline(c, run, specs, "served spec")
+	c.Cov["served"] = map[string]any{"packages": len(specs), "requests": run.requests}
+	return run.requests
+}
